@@ -471,6 +471,11 @@ func restructure(r *vh.Rand, g []clG, t []clT) {
 		if hasSubG(*c, n) {
 			return
 		}
+		for _, x := range ct.subs {
+			if x.name == n {
+				return // the table may hold entries the gslb conf does not name: keys of a Go map are unique
+			}
+		}
 		old := c.subs[i].name
 		c.subs[i].name = n
 		for j := range ct.subs {
